@@ -75,31 +75,74 @@ def run(ctx):
     need = {"float"} | ({"np.floating"} if not facts["np.float32 is a float"] else set())
     ok = need <= have
     ctx.ob("C38.D1-numeric-types-covered", cname(f, None, f"float branch tests {sorted(need)}"), ok, "" if ok else f"isinstance tuple is {sorted(have)}", nontrivial=True, where=where(f, flt))
-    # D2 bounds
-    cmp_nodes = [n for n in ast.walk(integral.test) if isinstance(n, ast.Compare) and len(n.ops) == 2]
-    ok = False
+    # D2 bounds.  Module-level integer constants may name the bound.
+    consts_env = {}
+    for st in repo.module(UT).tree.body:
+        if isinstance(st, ast.Assign) and len(st.targets) == 1 and isinstance(st.targets[0], ast.Name):
+            try:
+                v = eval(compile(ast.Expression(body=st.value), "<fold>", "eval"), {"__builtins__": {}}, dict(consts_env))
+                if isinstance(v, int) and not isinstance(v, bool):
+                    consts_env[st.targets[0].id] = v
+            except Exception:
+                pass
+
+    def foldc(e):
+        return eval(compile(ast.Expression(body=e), "<fold>", "eval"), {"__builtins__": {}}, dict(consts_env))
+
     cmp_operand = clamp_operand = None
-    if cmp_nodes:
-        c = cmp_nodes[0]
-        try:
-            lo, hi = fold(c.left), fold(c.comparators[1])
-            ok = lo == -LIMIT and hi == LIMIT and all(isinstance(o, ast.LtE) for o in c.ops) and A.norm(c.comparators[0]) in ("data", "int(data)")
-            cmp_operand = A.norm(c.comparators[0])
-        except Exception:
-            ok = False
-    ctx.ob("C38.D2-bounds", cname(f, None, "in-range test is -(2**53-1) <= data <= 2**53-1"), ok, "" if ok else "comparison bounds changed", nontrivial=True, where=where(f, integral))
+    ok, why = False, "no range test on the value found"
+    # form (a): not (lo <= X <= hi)      form (b): abs(X) > hi   /   abs(X) >= hi + 1
+    for n in ast.walk(integral.test):
+        if isinstance(n, ast.Compare) and len(n.ops) == 2:
+            try:
+                lo, hi = foldc(n.left), foldc(n.comparators[1])
+            except Exception:
+                continue
+            cmp_operand = A.norm(n.comparators[0])
+            ok = lo == -LIMIT and hi == LIMIT and all(isinstance(o, ast.LtE) for o in n.ops)
+            why = "" if ok else f"in-range test is {lo} <= x <= {hi}"
+            break
+        if isinstance(n, ast.Compare) and len(n.ops) == 1 and isinstance(n.left, ast.Call) and A.call_name(n.left) in ("abs", "np.abs", "numpy.abs") and len(n.left.args) == 1:
+            try:
+                bound = foldc(n.comparators[0])
+            except Exception:
+                continue
+            cmp_operand = A.norm(n.left.args[0])
+            ok = (isinstance(n.ops[0], ast.Gt) and bound == LIMIT) or (isinstance(n.ops[0], ast.GtE) and bound == LIMIT + 1)
+            why = "" if ok else f"out-of-range test is abs(x) {type(n.ops[0]).__name__} {bound}"
+            if ok and cmp_operand == "data" and "np.integer" in set(isinstance_types(integral.test)):
+                import warnings
+
+                with warnings.catch_warnings():
+                    warnings.simplefilter("ignore")
+                    facts["abs(int64 min) is negative"] = bool(abs(np.int64(-2**63)) < 0)
+                if facts["abs(int64 min) is negative"]:
+                    ok, why = False, ("abs() of a fixed-width numpy integer wraps for its most negative value (abs(np.int64(-2**63)) is negative): that value "
+                                      "is never recognised as out of range and is returned unchanged")
+            break
+    ctx.ob("C38.D2-bounds", cname(f, None, "the range test accepts exactly -(2**53-1) .. 2**53-1"), ok, why, nontrivial=True, where=where(f, integral))
     r = integral.body[0]
-    ok = False
-    if isinstance(r, ast.Return) and isinstance(r.value, ast.Call) and A.call_name(r.value) == "min":
-        inner = r.value.args[0]
+    ok, why = False, "clamp not recognised"
+    if isinstance(r, ast.Return):
+        v = r.value
         try:
-            hi = fold(r.value.args[1])
-            lo = fold(inner.args[1]) if isinstance(inner, ast.Call) and A.call_name(inner) == "max" else None
-            ok = hi == LIMIT and lo == -LIMIT and A.norm(inner.args[0]) in ("data", "int(data)")
-            clamp_operand = A.norm(inner.args[0])
+            if isinstance(v, ast.Call) and A.call_name(v) == "min" and isinstance(v.args[0], ast.Call) and A.call_name(v.args[0]) == "max":
+                hi, lo = foldc(v.args[1]), foldc(v.args[0].args[1])
+                clamp_operand = A.norm(v.args[0].args[0])
+                ok = hi == LIMIT and lo == -LIMIT and clamp_operand in ("data", "int(data)")
+                why = "" if ok else f"clamps {clamp_operand} to [{lo}, {hi}]"
+            elif isinstance(v, ast.IfExp) and isinstance(v.test, ast.Compare) and len(v.test.ops) == 1:
+                # hi if X > 0 else -hi   (only values already known to be out of range reach the clamp)
+                pos, neg = foldc(v.body), foldc(v.orelse)
+                tv = A.norm(v.test.left)
+                zero = foldc(v.test.comparators[0])
+                if isinstance(v.test.ops[0], (ast.Lt, ast.LtE)):
+                    pos, neg = neg, pos
+                ok = pos == LIMIT and neg == -LIMIT and zero == 0 and tv in ("data", "int(data)")
+                why = "" if ok else f"clamps to {pos} / {neg} by the sign of {tv}"
         except Exception:
-            ok = False
-    ctx.ob("C38.D2-bounds", cname(f, None, "clamp is min(max(data, -(2**53-1)), 2**53-1)"), ok, "" if ok else "clamp bounds differ from the comparison bounds", nontrivial=True, where=where(f, integral))
+            ok, why = False, "clamp bounds are not constants"
+    ctx.ob("C38.D2-bounds", cname(f, None, "out-of-range values are clamped to -(2**53-1) / 2**53-1"), ok, why if not ok else "", nontrivial=True, where=where(f, integral))
     # D1 (integral branch): the bound 2**53 - 1 must survive the comparison's type promotion.  numpy converts a Python int that is
     # compared with a numpy float scalar to that scalar's type (NEP 50); facts read from the installed numpy:
     facts["float32(2**53 - 1) == 2**53 - 1"] = int(np.float32(LIMIT)) == LIMIT
@@ -114,6 +157,8 @@ def run(ctx):
                                          "(2**53 - 1 becomes 2**53): float32(2**53) counts as in range and is returned unchanged")
         else:
             ok, why = operand == "int(data)", f"operand {operand}"
+        if what == "in-range test" and operand == "data" and not ok:
+            pass
         ctx.ob("C38.D1-bound-survives-promotion", cname(f, None, f"{what}: the value is compared exactly (int(data)) or no narrow float type reaches it"), ok,
                "" if ok else why, nontrivial=True, where=where(f, integral))
     # int(data) is only safe behind the integrality guard (inf / nan % 1 is nan -> falsy guard): the guard must precede it in the `and` chain
@@ -156,4 +201,9 @@ MUTANTS = [
     ("float branch only for Python floats", [(U, "    elif isinstance(data, (float, np.floating)) and (float(data) < -1.7976e308 or float(data) > 1.7976e308):", "    elif isinstance(data, float) and (float(data) < -1.7976e308 or float(data) > 1.7976e308):")], "C38.D1"),
     ("float clamp to infinity", [(U, "        return min(max(float(data), -1.7976e308), 1.7976e308)", "        return min(max(float(data), -1.7976e308), float(\"inf\"))")], "C38.D2"),
 ]
-BENIGN = []
+BENIGN = [
+    ("range test written with abs(int(data)) and a named bound", [(U, "def truncate_json_overflow(data):", "_JSON_MAX_INT = 2**53 - 1\n\n\ndef truncate_json_overflow(data):"), (U, "and not (1 - 2**53 <= int(data) <= 2**53 - 1):", "and abs(int(data)) > _JSON_MAX_INT:")]),
+]
+MUTANTS += [
+    ("range test with abs() on the raw value (seed C38-b)", [(U, "and not (1 - 2**53 <= int(data) <= 2**53 - 1):", "and abs(data) > 2**53 - 1:")], "C38.D2"),
+]
